@@ -202,6 +202,37 @@ def case_linear_noncontiguous_activations():
     return None if torch.allclose(_deq(r), ref, atol=1e-4) else "linear with non-contiguous activations differs"
 
 
+def case_linear_strided_int8_operands():
+    """integer GEMM route with operands that are views: expanded (stride 0) activations / weights, a single-row
+    transposed view, sliced rows — torch._int_mm ignores strides on CPU"""
+    import optimum.quanto as q
+    torch.manual_seed(0)
+    w = q.quantize_weight(torch.randn(5, 6), q.qint8, 0)
+    sc = torch.tensor(0.02)
+    cands = {
+        "expanded rows": q.quantize_activation(torch.randn(1, 6), q.qint8, sc).expand(4, 6),
+        "expanded batch": q.quantize_activation(torch.randn(1, 3, 6), q.qint8, sc).expand(2, 3, 6),
+        "single-row transposed": q.quantize_activation(torch.randn(6, 1), q.qint8, sc).t(),
+        "transposed": q.quantize_activation(torch.randn(6, 3), q.qint8, sc).t(),
+    }
+    for name, x in cands.items():
+        try:
+            r = torch.nn.functional.linear(x, w)
+        except Exception as e:  # noqa
+            return f"linear with {name} int8 activations raises {exc_name(e)}"
+        ref = torch.nn.functional.linear(_deq(x), _deq(w))
+        if not torch.allclose(_deq(r), ref, atol=1e-4):
+            return f"linear with {name} int8 activations differs by {float((_deq(r) - ref).abs().max()):.3g}"
+    # expanded per-tensor weight (both operands int8)
+    wt = q.quantize_activation(torch.randn(1, 6), q.qint8, sc).expand(5, 6)
+    x = q.quantize_activation(torch.randn(4, 6), q.qint8, sc)
+    r = torch.nn.functional.linear(x, wt)
+    ref = torch.nn.functional.linear(_deq(x), _deq(wt))
+    if not torch.allclose(_deq(r), ref, atol=1e-4):
+        return f"linear with an expanded int8 weight differs by {float((_deq(r) - ref).abs().max()):.3g}"
+    return None
+
+
 def case_linear_weight_last_axis():
     import optimum.quanto as q
     torch.manual_seed(0)
@@ -248,6 +279,7 @@ CASES = {
     "lt-float8": case_lt_float8,
     "linear-1d-input": case_linear_1d_input,
     "linear-noncontiguous-activations": case_linear_noncontiguous_activations,
+    "linear-strided-int8-operands": case_linear_strided_int8_operands,
     "mm-contracted-axis": case_mm_contracted_axis,
     "mm-contracted-axis-right": case_mm_contracted_axis_right,
     "linear-weight-last-axis": case_linear_weight_last_axis,
